@@ -393,6 +393,81 @@ def run_sources(report, n, rng):
     evaluate_corr(report, IMPORTS, "Corr.C08", "dest_for_src", "dst_case", cases, meta, "dst_agree", "dst_prop")
 
 
+def run_configs_and_flags(report, rng):
+    """the argument list may hold several configuration files and loose svg files, and options may come from a file
+    and from flags at once (round 7): (a) every configuration named on one command line receives the loose svgs, in
+    every order of the arguments; (b) with the configuration file left alone, the options given by FLAG are part of the
+    resolved configuration too - a second invocation in the same build directory with another flag value writes the
+    font of a fresh directory"""
+    from fontTools import ttLib
+
+    docs, srcs = e2e.gen_sources(rng, n=5, share=False)
+    with scratch_dir("verif-c08cf-") as d:
+        for sub, part in (("setA", srcs[:2]), ("setB", srcs[2:4])):
+            (d / sub).mkdir()
+            for s_ in part:
+                (d / sub / s_[0]).write_text(s_[1])
+        (d / "loose").mkdir()
+        extra = d / "loose" / srcs[4][0]
+        extra.write_text(srcs[4][1])
+        for name, sub in (("A", "setA"), ("B", "setB")):
+            (d / f"{name}.toml").write_text(f'output_file = "{name}.ttf"\ncolor_format = "glyf_colr_1"\nupem = 1000\n[axis.wght]\nname = "Weight"\ndefault = 400\n[master.regular]\nstyle_name = "Regular"\nsrcs = ["{sub}/*.svg"]\n[master.regular.position]\nwght = 400\n')
+        orders = [("A.toml B.toml extra", ["A.toml", "B.toml", str(extra)]), ("B.toml A.toml extra", ["B.toml", "A.toml", str(extra)]), ("extra B.toml A.toml", [str(extra), "B.toml", "A.toml"])]
+        alone = [("A.toml extra", ["A.toml", str(extra)]), ("B.toml extra", ["B.toml", str(extra)])]
+
+        def run(v):
+            k, (name, args) = v
+            rc, out = cli_build(d, d / f"bo{k}", args, d, str(k))
+            return name, d / f"bo{k}", rc, out
+
+        with ThreadPoolExecutor(max_workers=5) as ex:
+            results = list(ex.map(run, enumerate(orders + alone)))
+        case = dict(kind="e2e-determinism", what="two configuration files and a loose svg on one command line", sources=[s_[1] for s_ in srcs])
+        shas = {}
+        for name, bd, rc, out in results:
+            if rc != 0:
+                case.update(variant=name, exit=rc, log=out[-1500:])
+                report_failure(report, "configs_build", case)
+                return
+            for fnt in ("A.ttf", "B.ttf"):
+                if (bd / fnt).exists():
+                    shas.setdefault(fnt, {})[name] = sha(bd / fnt)
+                    cps = set(ttLib.TTFont(bd / fnt).getBestCmap())
+                    if not set(srcs[4][2]) <= cps:
+                        case.update(variant=name, font=fnt, problem=f"the svg named on the command line (U+{srcs[4][2][0]:X}) is not in this configuration's font")
+                        report_failure(report, "configs_loose_svg", case)
+                        return
+        report.count(("configs", tuple(s_[1] for s_ in srcs)), True, len(results))
+        report.hist("determinism.format", "two configurations + a loose svg, argument orders")
+        for fnt, m in shas.items():
+            if len(set(m.values())) != 1:
+                case.update(font=fnt, font_sha256=m)
+                report_failure(report, "configs_order", case)
+                return
+    # (b) options by flag on top of an untouched configuration file, twice in one build directory
+    docs, srcs = e2e.gen_sources(rng, n=3)
+    for opt, first, second in (("--color_format", "glyf_colr_0", "glyf_colr_1"), ("--upem", "1000", "2048"), ("--width", "1000", "0")):
+        with scratch_dir("verif-c08ff-") as d:
+            (d / "art").mkdir()
+            for s_ in srcs:
+                (d / "art" / s_[0]).write_text(s_[1])
+            (d / "cfg.toml").write_text('output_file = "Font.ttf"\nfamily = "From File"\nascender = 800\ndescender = -200\n[axis.wght]\nname = "Weight"\ndefault = 400\n[master.regular]\nstyle_name = "Regular"\nsrcs = ["art/*.svg"]\n[master.regular.position]\nwght = 400\n')
+            case = dict(kind="e2e-determinism", what=f"cfg.toml left alone, {opt} {first} then {opt} {second} in one build directory, against a fresh directory", sources=[s_[1] for s_ in srcs])
+            rc1, o1 = cli_build(d, d / "used", [opt, first, "cfg.toml"], d)
+            rc2, o2 = cli_build(d, d / "used", [opt, second, "cfg.toml"], d)
+            rc3, o3 = cli_build(d, d / "fresh", [opt, second, "cfg.toml"], d)
+            if rc1 or rc2 or rc3:
+                case.update(exit=[rc1, rc2, rc3], log=(o1 if rc1 else o2 if rc2 else o3)[-1500:])
+                report_failure(report, "flag_rerun_build", case)
+                return
+            report.count(("flag-rerun", opt, tuple(s_[1] for s_ in srcs)), True)
+            report.hist("determinism.format", "flag changed between two runs, file untouched")
+            if sha(d / "used" / "Font.ttf") != sha(d / "fresh" / "Font.ttf"):
+                case.update(font_sha256=dict(second_run_in_used_directory=sha(d / "used" / "Font.ttf"), fresh_directory=sha(d / "fresh" / "Font.ttf")))
+                report_failure(report, "flag_rerun", case)
+                return
+
+
 def main(argv):
     common.setup_env()
     tier = common.tier_from_args(argv)
@@ -412,6 +487,8 @@ def main(argv):
     run_determinism(report, 3 if tier == "quick" else 40, rng, ["glyf_colr_1", "picosvg", "cbdt", "glyf_colr_0", "untouchedsvg", "sbix", "cff_colr_1"])
     if not report.violations:
         run_glob_order(report, rng)
+    if not report.violations:
+        run_configs_and_flags(report, random.Random(report.seed + 77))
     run_hermetic(report, rng, 1 if tier == "quick" else 6)
     if not st["proof_ok"] and not report.violations:
         report.violation("proof", dict(kind="proof", theorem="Props/C08.v", detail=report.notes.get("proof_failure")), found_input=False)
